@@ -88,6 +88,8 @@ class Exec(ExprMixin, CallMixin, StmtMixin):
         for n in argnames:
             if n not in con.params:
                 raise Unsupported("parameter %s of %s has no sort in the contract" % (n, con.qualname), self.fn)
+        if self.fn.args.kwarg is not None and self.fn.args.kwarg.arg in con.params:
+            st.owned.add(self.fn.args.kwarg.arg)  # the **kwargs dict is created for this call: nobody else can reach it
         for n, ty in con.params.items():
             st.env[n] = fresh(ty, n, cf)
             for f in wf(st.env[n]):
@@ -123,10 +125,20 @@ class Exec(ExprMixin, CallMixin, StmtMixin):
         if getattr(con, "ghost_init", None):
             ginit = ast.parse(con.ghost_init).body
             body = ginit + body
+        self.is_generator = any(isinstance(n_, (ast.Yield, ast.YieldFrom)) for n_ in ast.walk(ast.Module(body=body, type_ignores=[])))
+        if self.is_generator:
+            # a generator function is read as the list of what it yields, in order (A-gen: its consumer does not interleave other effects);
+            # `yield x` appends to the ghost list _yielded, falling off the end returns it
+            if not isinstance(con.ret, TList):
+                raise Unsupported("generator function: the contract must give the list type of the yielded values", self.fn)
+            st.env["_yielded"] = self.empty_of(con.ret)
+            st.owned.add("_yielded")
         self.number_nodes(ast.Module(body=body, type_ignores=[]))
         outs = self.exec_block(body, st)
         self.exits = []
         for o in outs:
+            if self.is_generator and o.kind in ("normal", "return"):
+                o = Outcome("return", o.st, val=o.st.env["_yielded"])
             self.finish(o, pre_env)
         extra = list(S.GLOBAL_AXIOMS)
         for th in self.con.theories:
